@@ -127,6 +127,11 @@ def build_pool(rng, size):
         else:
             add({"kind": "solve", "grid": str(rng.choice(["U6", "C6", "U6p"])), "bc": str(rng.choice(["value0", "derivative0", "auto_neumann"])), "solver": str(rng.choice(["euler", "adams-bashforth", "runge-kutta"])),
                  "backend": str(rng.choice(["numpy", "numba"])), "steps": int(rng.choice([3, 4]))})
+    # one equation object applied to states on different grids and through different backends
+    for eqk, bc, bc2 in (("diffusion", "value1", "value0"), ("cahn-hilliard", "value0", "derivative0"), ("expr2", "derivative0", "value0")):
+        for g in ("U6", "C6w", "P6", "S6"):
+            for backend in ("numpy", "numba"):
+                add({"kind": "rate", "eq": eqk, "grid": g, "bc": bc, "bc2": bc2, "backend": backend, "shared": True, "seed": 0})
     for g in ["U6p"]:
         for bc in ("periodic", "antiperiodic"):
             add({"kind": "make_operator", "grid": g, "op": "laplace", "kwargs": {}, "bc": bc, "dtype": "float64", "seed": 1})
